@@ -79,7 +79,7 @@ def check_triples(ctx, cases):
         ctx.count('strategy:' + str(args.merge_strategy))
         if res[0] != 'ok':
             ctx.case(canon(b) + canon(l) + canon(r) + json.dumps(args.key()), True)
-            ctx.violation('merge raised %s' % res[2], dict(data, kind='merge-raises', msg=res[2]))
+            ctx.violation('merge raised %s' % res[2], dict(data, kind='merge-raises', msg=res[2], site=mergelib.LAST_ERROR_SITE[0]))
             continue
         merged, decisions = res[1], res[2]
         ctx.case(canon(b) + canon(l) + canon(r) + json.dumps(args.key()), bool(decisions))
